@@ -274,6 +274,28 @@ func runC10(c *CaseCtx) (res CaseResult) {
 			pollute(r)
 			res.obs("operations_preceded_by_an_unrelated_failing_one", 1)
 		}
+		if c.Idx%4 == 2 && !anyOnce(&s) {
+			// history: the SAME conversion (target, converters, names and
+			// types of the values) was first asked for with values that carry
+			// other subtypes -- whatever became of it, it says nothing about
+			// the conversion checked next (the twin world gets the same
+			// preface through its identity function)
+			pre := func(in *Inst) []am.Arg {
+				args := append([]am.Arg{}, in.ConvArgs...)
+				for i, l := range s.Inputs {
+					if l.Sub != "" {
+						l.Sub += "q"
+					} else {
+						l.Sub = "zq"
+					}
+					args = append(args, InputArg(l, in.W.FreshInput(5, i, l)))
+				}
+				return args
+			}
+			DoConvert(in1.W, types[T], pre(in1))
+			DoCall(in2.W, in2.Target.Func, pre(in2))
+			res.obs("conversions_after_the_same_conversion_with_other_subtypes", 1)
+		}
 		o1 := DoConvert(in1.W, types[T], a1)
 		res.Evals++
 		det := map[string]interface{}{"scenario": s.String(), "T": typeName(T), "class": o1.Class, "err": firstLine(errStr(o1.Err)), "panic": o1.Panic, "events": eventsStr(o1.Events)}
@@ -370,4 +392,13 @@ func runC10(c *CaseCtx) (res CaseResult) {
 	}
 	res.Sample = map[string]interface{}{"scenario": s.String(), "T": typeName(T), "stable": stable}
 	return res
+}
+
+func anyOnce(s *Scenario) bool {
+	for _, cv := range s.Convs {
+		if cv.Once {
+			return true
+		}
+	}
+	return s.Target.Once
 }
